@@ -8,6 +8,7 @@ mod props;
 mod req;
 mod runner;
 mod selftest;
+mod stream;
 mod util;
 
 use props::Tier;
@@ -118,7 +119,7 @@ fn cmd_run(args: &[String]) -> i32 {
             }
         }
     }
-    let doc = json!({"known_findings": known, "property": id, "config": cfgname, "seed": seed, "tier": if tier == Tier::Quick { "quick" } else { "thorough" }, "checks": parts, "violations": violations});
+    let doc = json!({"monitors": ops::monitor_report(), "known_findings": known, "property": id, "config": cfgname, "seed": seed, "tier": if tier == Tier::Quick { "quick" } else { "thorough" }, "checks": parts, "violations": violations});
     match out {
         Some(p) => std::fs::write(p, serde_json::to_string_pretty(&doc).unwrap()).expect("write out"),
         None => println!("{}", serde_json::to_string_pretty(&doc).unwrap()),
@@ -189,6 +190,9 @@ fn main() {
             }
         },
         "run" => cmd_run(&args),
+        "gen-stream" => stream::cmd_gen(&args),
+        "exec-stream" => stream::cmd_exec(&args),
+        "exec-one" => stream::cmd_exec_one(&args),
         "replay" => cmd_replay(&args),
         _ => {
             eprintln!("usage: driver <selftest|run|replay> ...");
